@@ -319,13 +319,19 @@ func (evm *EVM) Call(ctx context.Context, caller ethvm.ContractRef, addr common.
 		if len(code) == 0 {
 			ret, err = nil, nil // gas is unchanged
 		} else {
+			// calldata is a required field of the join point messages: empty
+			// calldata (nil for a zero-length CALL) has to be sent as empty, not absent
+			jpInput := input
+			if jpInput == nil {
+				jpInput = []byte{}
+			}
 			if evm.IsExecuteJP {
 				preCallResult := djpm.AspectInstance().PreContractCall(ctx, caller.Address(), addr, input, int64(blockNum), gas, value, &types.PreContractCallInput{
 					Call: &types.PreExecMessageInput{
 						From:  caller.Address().Bytes(),
 						To:    addr.Bytes(),
 						Index: &currentCall.Index,
-						Data:  input,
+						Data:  jpInput,
 						Value: value.Bytes(),
 						Gas:   &gas,
 					},
@@ -360,7 +366,7 @@ func (evm *EVM) Call(ctx context.Context, caller ethvm.ContractRef, addr common.
 						From:  caller.Address().Bytes(),
 						To:    addr.Bytes(),
 						Index: &currentCall.Index,
-						Data:  input,
+						Data:  jpInput,
 						Value: value.Bytes(),
 						Gas:   &gas,
 						Ret:   ret,
